@@ -26,8 +26,16 @@ def plan(tier, seed):
         gs.append(Group('TABLE:identities[%s]' % n, T.g_tables_identities, ([n],)))
     for n in QS + ['qshift_b_bp']:
         gs.append(Group('TABLE:identities[%s]' % n, T.g_tables_identities, ([n],)))
-    for n in (QS if dense else ['qshift_06']):
-        gs.append(Group('LEMMA:qshift-PR-1d[%s] (concrete taps, symbolic size)' % n, D.g_qshift_pr_symbolic, (n,)))
+    gs.append(Group('LEMMA:qshift-PR-1d[qshift_06] (concrete taps, symbolic size)', D.g_qshift_pr_symbolic, ('qshift_06',)))
+    if dense:
+        # the other tables piecewise (interior by residue, boundary rows one by one + a covering obligation): the single query
+        # grows much faster than the filter length (hours for 18 taps), the pieces take seconds each and run in parallel
+        for n in QS:
+            if n == 'qshift_06':
+                continue
+            for kind, k in D.qshift_pr_pieces(n):
+                gs.append(Group('LEMMA:qshift-PR-1d[%s]/%s=%d' % (n, kind, k), D.g_qshift_pr_piece, (n, kind, k)))
+        gs.append(Group('canary:qshift-PR-piece-perturbed', D.g_qshift_pr_piece, ('qshift_a', 'interior', 3), {'canary': True}, canary=True))
     gs.append(Group('canary:level1-closed-form-shifted', D.g_level1_closed_form, (True,), canary=True))
     gs.append(Group('canary:perturbed-table', T.g_tables_identities, (['qshift_a'],), {'perturb': 1e-6}, canary=True))
     pairs = [(b, q) for b in BI for q in QS]
